@@ -159,6 +159,168 @@ class {name}(cohdl.Entity):
     return e
 
 
+def _pulse_updates(ns):
+    """state / rising / falling updates of ToggleSignal and ClockDivider for the next state `ns` (an expression or TRUE/FALSE):
+    "rising(): a bit signal that is 1 for a single clock cycle after each transition of state() from 0 to 1" (falling likewise)"""
+    ST = ref("st")
+    if ns is TRUE:
+        return [assign("next", "st", TRUE), assign("next", "ri", un("inv", ST)), assign("next", "fa", FALSE)]
+    if ns is FALSE:
+        return [assign("next", "st", FALSE), assign("next", "ri", FALSE), assign("next", "fa", ST)]
+    return [bind("ns", ns), assign("next", "st", ref("ns")), assign("next", "ri", bin_("land", un("not", ST), ref("ns"))),
+            assign("next", "fa", bin_("land", ST, un("not", ref("ns"))))]
+
+
+def _periodic_entity(name, src, w, pos_default, default_state, require_enable, with_reset, body, extra_in=(), extra_objs=(), extra_ctxs=()):
+    """common frame of the ToggleSignal / ClockDivider reference descriptions: position counter `pos`, state / rising / falling
+    registers, the enable/disable flag `rc` ("disable: stop signal generation and reset the internal counter to zero") set by a
+    user context from input `en`, and the combined reset of ctx.or_reset"""
+    ports = [port("clk", "in", BIT)] + ([port("rst", "in", BIT)] if with_reset else []) + [port("en", "in", BIT)] + list(extra_in) + \
+            [port("o", "out", BIT), port("r", "out", BIT), port("f", "out", BIT)]
+    objs = [obj("pos", "signal", T("u", w), default=pos_default), obj("st", "signal", BIT, default=1 if default_state else 0),
+            obj("ri", "signal", BIT, default=0), obj("fa", "signal", BIT, default=0),
+            obj("rc", "signal", BIT, default=1 if require_enable else 0), obj("cr", "signal", BIT)] + list(extra_objs)
+    ctxs = [conc_ctx("comb", [assign("next", "cr", bin_("or", ref("rst"), ref("rc")) if with_reset else ref("rc"))]),
+            seq_ctx("tproc", body, reset=reset("cr")),
+            seq_ctx("user", [if_(ref("en"), [assign("next", "rc", FALSE)], [assign("next", "rc", TRUE)])]),
+            conc_ctx("show", [assign("next", "o", ref("st")), assign("next", "r", ref("ri")), assign("next", "f", ref("fa"))])] + list(extra_ctxs)
+    e = entity(name, ports, objs, ctxs)
+    e["source_override"] = src
+    return e
+
+
+def _periodic_src(name, ctor, with_reset, extra_ports=""):
+    rst = ", std.Reset(self.rst)" if with_reset else ""
+    return f'''
+class {name}(cohdl.Entity):
+    clk = Port.input(Bit)
+{"    rst = Port.input(Bit)" if with_reset else ""}
+    en = Port.input(Bit)
+{extra_ports}
+    o = Port.output(Bit)
+    r = Port.output(Bit)
+    f = Port.output(Bit)
+
+    def architecture(self):
+        ctx = std.SequentialContext(std.Clock(self.clk){rst})
+        gen = {ctor}
+        std.concurrent_assign(self.o, gen.state())
+        std.concurrent_assign(self.r, gen.rising())
+        std.concurrent_assign(self.f, gen.falling())
+
+        @std.sequential(std.Clock(self.clk))
+        def user():
+            if self.en:
+                gen.enable()
+            else:
+                gen.disable()
+'''
+
+
+def toggle_design(name, a, b, default_state, first_state, require_enable, with_reset):
+    """ToggleSignal(ctx, a, b): "toggles between 0 and 1 with a defined period and duty cycle. The duration parameters define how
+    long the signal remains in each state ... first_state defines the state of the signal when starting after a reset":
+    position pos runs 0..a+b-1; the state is first_state while pos < a, the other state otherwise"""
+    end = a + b - 1
+    w = max(1, end.bit_length())
+    P = ref("pos")
+    val = lambda inside: TRUE if (inside == bool(first_state)) else FALSE        # state for `pos' < a` true / false
+    if end == 0:
+        body = _pulse_updates(val(0 < a))
+    else:
+        nxt = bin_("add", P, pint(1))
+        in_first = bin_("lt", nxt, pint(a))
+        ns = in_first if first_state else un("not", in_first)
+        body = [if_(bin_("eq", P, pint(end)), [assign("next", "pos", pint(0))] + _pulse_updates(val(0 < a)),
+                    [assign("next", "pos", nxt)] + _pulse_updates(ns))]
+    ctor = f"std.ToggleSignal(ctx, {a}, {b}, default_state={bool(default_state)}, first_state={bool(first_state)}, require_enable={bool(require_enable)})"
+    e = _periodic_entity(name, _periodic_src(name, ctor, with_reset), w, 0, default_state, require_enable, with_reset, body)
+    e["family"] = f"toggle_{a}_{b}_d{default_state}_f{first_state}_e{require_enable}_r{int(with_reset)}"
+    return e
+
+
+def clkdiv_design(name, d, default_state, tick_at_start, require_enable, with_reset):
+    """ClockDivider(ctx, d): "generates a signal that is high for one clock cycle and low for the rest of a period with the
+    given duration" (relative to default_state); with tick_at_start the first pulse comes with the first clock"""
+    end = d - 1
+    w = max(1, end.bit_length())
+    P = ref("pos")
+    hit = TRUE if not default_state else FALSE
+    rest = FALSE if not default_state else TRUE
+    body = [if_(bin_("eq", P, pint(end)), [assign("next", "pos", pint(0))] + _pulse_updates(hit),
+                [assign("next", "pos", bin_("add", P, pint(1)))] + _pulse_updates(rest))]
+    ctor = f"std.ClockDivider(ctx, {d}, default_state={bool(default_state)}, tick_at_start={bool(tick_at_start)}, require_enable={bool(require_enable)})"
+    e = _periodic_entity(name, _periodic_src(name, ctor, with_reset), w, end if tick_at_start else 0, default_state, require_enable, with_reset, body)
+    e["family"] = f"clkdiv_{d}_d{default_state}_t{int(tick_at_start)}_e{require_enable}_r{int(with_reset)}"
+    return e
+
+
+def toggle_runtime_design(name, default_state, first_state, require_enable, with_reset):
+    """run-time durations ("int and Unsigned parameters are interpreted as a number of clock ticks", "also for run-time periods"):
+    the period end follows the inputs; the position continues from zero as soon as it is at or beyond the end"""
+    PA, PB, P, CE = ref("pa"), ref("pb"), ref("pos"), ref("ce")
+    total = bin_("add", resize(PA, 3), resize(PB, 3))
+    nxt = bin_("add", P, pint(1))
+    f = (lambda e: e) if first_state else (lambda e: un("not", e))
+    body = [assume(bin_("ne", total, pint(0))),                    # emitted as `assert sum != 0, "counter end was set to 0"`
+            if_(bin_("ge", P, CE), [assign("next", "pos", pint(0))] + _pulse_updates(f(bin_("ne", PA, pint(0)))),
+                [assign("next", "pos", nxt)] + _pulse_updates(f(bin_("lt", nxt, PA))))]
+    ctor = f"std.ToggleSignal(ctx, self.pa, self.pb, default_state={bool(default_state)}, first_state={bool(first_state)}, require_enable={bool(require_enable)})"
+    U2_ = T("u", 2)
+    src = _periodic_src(name, ctor, with_reset, "    pa = Port.input(Unsigned[2])\n    pb = Port.input(Unsigned[2])")
+    e = _periodic_entity(name, src, 3, 0, default_state, require_enable, with_reset, body,
+                         extra_in=[port("pa", "in", U2_), port("pb", "in", U2_)], extra_objs=[obj("ce", "signal", T("u", 3))],
+                         extra_ctxs=[conc_ctx("endc", [assign("next", "ce", bin_("sub", total, pint(1)))])])
+    e["family"] = f"toggle_runtime_d{default_state}_f{first_state}_e{require_enable}_r{int(with_reset)}"
+    return e
+
+
+def clkdiv_runtime_design(name, default_state, require_enable, with_reset):
+    PD, P, CE = ref("pd"), ref("pos"), ref("ce")
+    hit = TRUE if not default_state else FALSE
+    rest = FALSE if not default_state else TRUE
+    body = [assume(bin_("ge", PD, pint(1))),                       # emitted as `assert cnt_duration >= 1`
+            if_(bin_("ge", P, CE), [assign("next", "pos", pint(0))] + _pulse_updates(hit),
+                [assign("next", "pos", bin_("add", P, pint(1)))] + _pulse_updates(rest))]
+    ctor = f"std.ClockDivider(ctx, self.pd, default_state={bool(default_state)}, require_enable={bool(require_enable)})"
+    U2_ = T("u", 2)
+    src = _periodic_src(name, ctor, with_reset, "    pd = Port.input(Unsigned[2])")
+    e = _periodic_entity(name, src, 2, 0, default_state, require_enable, with_reset, body,
+                         extra_in=[port("pd", "in", U2_)], extra_objs=[obj("ce", "signal", U2_)],
+                         extra_ctxs=[conc_ctx("endc", [assign("next", "ce", bin_("sub", PD, pint(1)))])])
+    e["family"] = f"clkdiv_runtime_d{default_state}_e{require_enable}_r{int(with_reset)}"
+    return e
+
+
+def periodic_designs(tier):
+    ents = []
+    k = 0
+    q = tier == "quick"
+    for ds, fs, re_, wr in ([(0, 0, 0, False), (1, 1, 1, False)] if q else [(0, 0, 0, False), (1, 1, 1, False), (0, 1, 0, True), (1, 0, 1, False)]):
+        ents.append(toggle_runtime_design(f"E16Q_{k:03d}", ds, fs, re_, wr))
+        k += 1
+    for ds, re_, wr in ([(0, 0, False), (1, 1, False)] if q else [(0, 0, False), (1, 1, False), (0, 1, True), (1, 0, True)]):
+        ents.append(clkdiv_runtime_design(f"E16Q_{k:03d}", ds, re_, wr))
+        k += 1
+    k = 0
+    durs = [(1, 1), (2, 1), (1, 2), (2, 2), (3, 1), (1, 0), (0, 1), (0, 2), (2, 0), (3, 2)] + ([] if q else [(1, 3), (3, 3), (4, 1), (2, 3), (4, 4)])
+    for i, (a, b) in enumerate(durs):
+        for ds in (0, 1):
+            for fs in (0, 1):
+                variants = [(0, True), (1, False)] if not q else [((i + ds + fs) % 2, (i + fs) % 2 == 0)]
+                for re_, wr in variants:
+                    ents.append(toggle_design(f"E16P_{k:03d}", a, b, ds, fs, re_, wr))
+                    k += 1
+    for d in (2, 3, 4, 5) + (() if q else (6, 7, 8)):
+        for ds in (0, 1):
+            for ts in (0, 1):
+                variants = [(0, True), (1, False)] if not q else [((d + ds + ts) % 2, (d + ts) % 2 == 0)]
+                for re_, wr in variants:
+                    ents.append(clkdiv_design(f"E16P_{k:03d}", d, ds, ts, re_, wr))
+                    k += 1
+    return ents
+
+
 def component_designs(tier):
     ents = []
     k = 0
@@ -182,7 +344,7 @@ def component_designs(tier):
 
 
 def run(tier):
-    ents = wait_designs(tier) + component_designs(tier)
+    ents = wait_designs(tier) + component_designs(tier) + periodic_designs(tier)
     with vlib.Scratch() as scratch:
         return product.run("C16", tier, ents, lambda e: 0, scratch, timeout=1500 if tier == "quick" else 6000,
                            rule="std.wait_for / Waiter.wait_for with constant n, run-time n (all values of a 3-bit port) and allow_zero, "
